@@ -19,8 +19,8 @@ from common import g_bool, g_list, g_nats, g_opt, g_pair, g_val, subdir
 
 logging.getLogger('labtech').setLevel(logging.CRITICAL)
 
-MAXPAR = [None, None, 1, 1, 2, 2, 3, 3]          # per type index of U.SCHED_TYPES
-CACHEABLE = [True, False] * 4
+MAXPAR = [None, None, 1, 1, 2, 2, 3, 3, None, None, None]          # per type index of U.SCHED_TYPES
+CACHEABLE = [True, False] * 4 + [True, True, True]
 
 
 # ------------------------------------------------------------------ generation
@@ -68,10 +68,10 @@ def first_occ(xs):
     return out
 
 
-def gen_case(rng, *, max_n=8, p_fail=0.15, runner='l1', allow_dups=True):
+def gen_case(rng, *, max_n=8, p_fail=0.15, runner='l1', allow_dups=True, ntypes=8):
     n = rng.randint(1, max_n)
     shape = rng.choice(['random', 'random', 'chain', 'diamond', 'fan', 'shared_leaf'])
-    types = [rng.randrange(8) for _ in range(n)]
+    types = [rng.randrange(ntypes) for _ in range(n)]
     if rng.random() < 0.3:
         types = [rng.choice([2, 3])] * n          # everything on one max_parallel=1 type pair
     specs, reads, behs = [], [], []
